@@ -226,11 +226,14 @@ var refLibrary = []*gt{
 // unification with occurs check (idempotent result applied by refApply)
 // ---------------------------------------------------------------------------
 
-type refSubst map[int]*gt
+type refSubst struct {
+	m     map[int]*gt
+	alloc *int // nodes built by apply (budgeted: eager substitution can blow terms up exponentially)
+}
 
 func (th refSubst) walk(t *gt) *gt {
 	for t.kind == "var" {
-		u, ok := th[t.v]
+		u, ok := th.m[t.v]
 		if !ok {
 			return t
 		}
@@ -267,14 +270,14 @@ func (th refSubst) unify(a, b *gt) int {
 		if th.occurs(a.v, b) {
 			return refSTO
 		}
-		th[a.v] = b
+		th.m[a.v] = b
 		return refOK
 	}
 	if b.kind == "var" {
 		if th.occurs(b.v, a) {
 			return refSTO
 		}
-		th[b.v] = a
+		th.m[b.v] = a
 		return refOK
 	}
 	if a.kind != b.kind {
@@ -309,7 +312,7 @@ func (th refSubst) unify(a, b *gt) int {
 }
 
 func (th refSubst) apply(t *gt) *gt {
-	if len(th) == 0 {
+	if len(th.m) == 0 {
 		return t
 	}
 	t = th.walk(t)
@@ -326,6 +329,10 @@ func (th refSubst) apply(t *gt) *gt {
 	}
 	if !changed {
 		return t
+	}
+	*th.alloc += len(args) + 1
+	if *th.alloc > refMaxAlloc {
+		panic(refAbort{"size"})
 	}
 	return gApp(t.s, args...)
 }
@@ -383,6 +390,7 @@ type refInterp struct {
 	crossNoMatch    int // a ball passed a catch/3 whose catcher did not unify
 	caught          int
 	peakRD          int
+	alloc           int
 }
 
 func refSubstFrames(th refSubst, fs []refFrame) []refFrame {
@@ -452,7 +460,7 @@ func (ri *refInterp) tick() {
 }
 
 func (ri *refInterp) unify(a, b *gt) (refSubst, int) {
-	th := refSubst{}
+	th := refSubst{m: map[int]*gt{}, alloc: &ri.alloc}
 	st := th.unify(a, b)
 	if st == refSTO {
 		panic(refAbort{"sto"})
@@ -811,9 +819,10 @@ type refOutcome struct {
 }
 
 const (
-	refMaxSteps = 6000
-	refMaxRD    = 2500
+	refMaxSteps = 3000
+	refMaxRD    = 1500
 	refMaxSize  = 400
+	refMaxAlloc = 200000
 )
 
 func refSolveQuery(prog []*gt, query *gt, max int, iso bool) (out refOutcome) {
